@@ -31,7 +31,7 @@ func runC11(c *Ctx) {
 	c.Rule("R11.2b", "every control plane's readiness result is IsBatchReady() of the context from CalculateBatchContext (same source as UpgradeBatch)", 3)
 	c.Rule("R11.3", "currentBatch only moves under batchPartition", 2)
 	c.Rule("R11.4", "phase Completed only after Finalize()==nil; phase Progressing only after Initialize()==nil", 2)
-	c.Rule("R11.5", "Finalize wait predicates read a live object on every attempt; nil result only after the wait", 6)
+	c.Rule("R11.5", "Finalize wait predicates read a live object on every attempt; nil result only after the wait", 4)
 	c.Rule("R11.6", "scaling / plan change falls back to Upgrading and clears the ready time", 4)
 
 	ready := ConstVal(p.ConstObj("api/v1beta1", "ReadyBatchState"))
@@ -75,7 +75,7 @@ func runC11(c *Ctx) {
 			case vt.Op == "binop" && vt.Name == "+" && vt.Args[1].Op == "const" && vt.Args[1].Name == "1" && vt.Args[0].Op == "field" && vt.Args[0].Fld == batchFld:
 				// reachable only via BatchPartition == nil or *BatchPartition > CurrentBatch
 				reach, _ := CanReach(Entry(fn), func(in ssa.Instruction) bool { return in == ssa.Instruction(st) }, ReachOpts{CutEdge: func(b *ssa.BasicBlock, k int) bool {
-					return EdgeFactMatches(b, k, FNil(MField("BatchPartition"))) || EdgeFactMatches(b, k, FCmp(">", MField("BatchPartition"), MField("CurrentBatch")))
+					return EdgeFactMatches(b, k, FOr(FNil(MField("BatchPartition")), FCmp(">", MHas(MField("BatchPartition")), MField("CurrentBatch"))))
 				}})
 				c.Ob("R11.3", construct+"+1)", st.Pos(), !reach, "currentBatch++ only below batchPartition", ifs(reach, "increment reachable without (BatchPartition == nil) or (*BatchPartition > CurrentBatch)")).WithFacts(fs)
 			case vt.Op == "const" && vt.Name == "0":
@@ -163,31 +163,53 @@ func runC11(c *Ctx) {
 	if fn := p.Func("pkg/controller/batchrelease/context.BatchContext.IsBatchReady"); fn == nil {
 		c.Unresolved("R11.2", "BatchContext.IsBatchReady")
 	} else {
-		for _, ret := range returnsOf(fn) {
-			t := TermOf(ret.Results[0])
-			if !(t.Op == "const" && t.Name == "nil") {
-				continue
-			}
-			fs := FactsFor(fn).At(ret.Block())
-			needs := []need{
-				{"UpdatedReplicas >= DesiredUpdatedReplicas", FCmp(">=", MField("UpdatedReplicas"), MField("DesiredUpdatedReplicas"))},
-				{"allowedUnavailable(FailureThreshold, UpdatedReplicas) + UpdatedReadyReplicas >= DesiredUpdatedReplicas",
-					FCmp(">=", MBin("+", MCall("context.allowedUnavailable", MField("FailureThreshold"), MField("UpdatedReplicas")), MField("UpdatedReadyReplicas")), MField("DesiredUpdatedReplicas"))},
-				{"batchLabelSatisfied(Pods, RolloutID, PlannedUpdatedReplicas) == true", FTrue(MCall("context.batchLabelSatisfied", MField("Pods"), MField("RolloutID"), MField("PlannedUpdatedReplicas")))},
-			}
-			var missing []string
-			for _, n := range needs {
-				if !HasFact(fs, n.m) {
-					missing = append(missing, n.desc)
+		// each readiness fact is an edge every path to a nil result has to take (the result may be a
+		// literal `return nil` or a result variable that is still nil)
+		needs := []need{
+			{"UpdatedReplicas >= DesiredUpdatedReplicas", FCmp(">=", MField("UpdatedReplicas"), MField("DesiredUpdatedReplicas"))},
+			{"allowedUnavailable(FailureThreshold, UpdatedReplicas) + UpdatedReadyReplicas >= DesiredUpdatedReplicas",
+				FCmp(">=", MBin("+", MCall("context.allowedUnavailable", MField("FailureThreshold"), MField("UpdatedReplicas")), MField("UpdatedReadyReplicas")), MField("DesiredUpdatedReplicas"))},
+			{"batchLabelSatisfied(Pods, RolloutID, PlannedUpdatedReplicas) == true (or no rollout id / no pods listed)",
+				FOr(FTrue(MCall("context.batchLabelSatisfied", MField("Pods"), MField("RolloutID"), MField("PlannedUpdatedReplicas"))),
+					FCmp("==", MField("RolloutID"), MConst("")), FCmp("==", MLen(MField("Pods")), MConst("0")))},
+			{"not(DesiredUpdatedReplicas > 0 and UpdatedReadyReplicas == 0)",
+				FOr(FCmp("<=", MField("DesiredUpdatedReplicas"), MConst("0")), FCmp("!=", MField("UpdatedReadyReplicas"), MConst("0")))},
+		}
+		nilReturns := func(cut FactM) []*ssa.Return {
+			var out []*ssa.Return
+			for _, r := range WalkCP(Entry(fn), nil, IsReturn, ReachOpts{CutEdge: func(b *ssa.BasicBlock, k int) bool {
+				return cut != nil && EdgeFactMatches(b, k, cut)
+			}}) {
+				ret := r.Instr.(*ssa.Return)
+				if ret.Block() == fn.Recover || len(ret.Results) == 0 {
+					continue
+				}
+				if v, ok := ResolveConst(ret.Results[0], r.Env); ok && v == "nil" {
+					out = append(out, ret)
 				}
 			}
-			reach, _ := CanReach(Entry(fn), func(in ssa.Instruction) bool { return in == ssa.Instruction(ret) }, ReachOpts{CutEdge: func(b *ssa.BasicBlock, k int) bool {
-				return EdgeFactMatches(b, k, FOr(FCmp("<=", MField("DesiredUpdatedReplicas"), MConst("0")), FCmp("!=", MField("UpdatedReadyReplicas"), MConst("0"))))
-			}})
-			if reach {
-				missing = append(missing, "not(DesiredUpdatedReplicas > 0 and UpdatedReadyReplicas == 0)")
+			return out
+		}
+		all := nilReturns(nil)
+		seenRet := map[*ssa.Return]bool{}
+		for _, ret := range all {
+			if seenRet[ret] {
+				continue
 			}
-			c.Ob("R11.2", "BatchContext.IsBatchReady#return(nil)", ret.Pos(), len(missing) == 0, "batch is ready", ifs(len(missing) > 0, "missing: "+strings.Join(missing, "; "))).WithFacts(fs)
+			seenRet[ret] = true
+			var missing []string
+			for _, n := range needs {
+				for _, r2 := range nilReturns(n.m) {
+					if r2 == ret {
+						missing = append(missing, n.desc)
+						break
+					}
+				}
+			}
+			c.Ob("R11.2", "BatchContext.IsBatchReady#return(nil)", ret.Pos(), len(missing) == 0, "batch is ready", ifs(len(missing) > 0, "a nil result is reachable without: "+strings.Join(missing, "; "))).WithFacts(FactsFor(fn).At(ret.Block()))
+		}
+		if len(all) == 0 {
+			c.Ob("R11.2", "BatchContext.IsBatchReady#return(nil)", fn.Pos(), false, "a path on which the batch is reported ready", "anchor not found: no nil result")
 		}
 	}
 
@@ -356,6 +378,54 @@ func checkFinalizeWaits(c *Ctx, rule string) {
 		if s.waitCall != "" {
 			for _, w := range CallsIn(fn, s.waitCall) {
 				waitOK = append(waitOK, FNil(MResultOf(w, -1)))
+			}
+			// the wait may sit in a same-package helper that hands its verdict on: the helper's nil
+			// result then stands for the wait, provided the helper itself answers nil only behind the
+			// wait's success (or, where the policy allows it, when no wait was asked for)
+			for _, hc := range AllCalls(fn) {
+				g := hc.Common().StaticCallee()
+				if g == nil || g.Blocks == nil || g.Pkg != fn.Pkg || len(CallsIn(g, s.waitCall)) == 0 {
+					continue
+				}
+				var inner []FactM
+				for _, w := range CallsIn(g, s.waitCall) {
+					inner = append(inner, FNil(MResultOf(w, -1)))
+				}
+				succG := successReturn(g)
+				leak, _ := CanReach(Entry(g), succG, ReachOpts{CutEdge: func(b *ssa.BasicBlock, k int) bool {
+					if EdgeFactMatches(b, k, FOr(inner...)) {
+						return true
+					}
+					return s.policy && EdgeFactMatches(b, k, FFalse(MCall("control.ShouldWaitResume")))
+				}})
+				// a helper that returns the wait's own result has no nil-edge of its own: accept when
+				// every nil-able return is the wait call's value
+				if leak {
+					leak = false
+					for _, ret := range returnsOf(g) {
+						if !succG(ret) {
+							continue
+						}
+						if fs := FactsFor(g).At(ret.Block()); s.policy && HasFact(fs, FFalse(MCall("control.ShouldWaitResume"))) {
+							continue
+						}
+						direct := false
+						for _, lf := range Leaves(Forwarded(ret.Results[len(ret.Results)-1]), ret.Block()) {
+							if call, ok := lf.V.(*ssa.Call); ok && NameMatch(CalleeName(&call.Call), s.waitCall) {
+								direct = true
+							} else {
+								direct = false
+								break
+							}
+						}
+						if !direct {
+							leak = true
+						}
+					}
+				}
+				if !leak {
+					waitOK = append(waitOK, FNil(MResultOf(hc, -1)))
+				}
 			}
 		} else {
 			waitOK = append(waitOK, FCmp("==", MField("Status", "ReadyReplicas"), MField("Status", "UpdatedReadyReplicas")))
